@@ -7,11 +7,11 @@ LEVEL = "exploration"
 RULE = ("cases: random leaf sequence (text ASCII / Latin-1 / beyond, bytes, single bits and bit runs, empty leaves) satisfying the alignment precondition "
         "(every text/bytes leaf starts on a byte boundary; total a multiple of 8 when a byte view is requested) x many random bracketings of it "
         "(bit runs split across sibling and cousin subtrees). For every tree all 24 orders of str/bytes/to_bits/int are applied (i) each on a fresh copy, "
-        "(ii) in sequence on one tree, (iii) in sequence on one tree.value() object; results must coincide across bracketings and orders and equal the "
+        "(ii) in sequence on one tree, (iii) in sequence on one tree.value() object, (iv) value -> in-place leaf edit -> value histories asked of the tree, subtrees and index/slice views; results must coincide across bracketings and orders and equal the "
         "reference (vf/ref/treeval.py); tree dumps and every terminal's TreeValue internals must be unchanged afterwards. Non-trivial: >= 2 leaves and "
         ">= 2 nesting levels; distinct by (leaf sequence, bracketing).")
 TIMEOUTS = {"quick": (60, 240), "thorough": (120, 1500)}
-MIN = {"quick": {"cases": 1500, "nontrivial": 10000, "observed": {"conversions": 500000, "binary_sequences": 500, "bit_runs_split_across_subtrees": 1000}},
+MIN = {"quick": {"cases": 1500, "nontrivial": 10000, "observed": {"conversions": 500000, "binary_sequences": 500, "bit_runs_split_across_subtrees": 1000, "post_edit_slice_values_checked": 2000}},
        "thorough": {"cases": 20000, "nontrivial": 150000, "observed": {"conversions": 5000000}}}
 ASSUMPTIONS = ["int() is compared for order- and bracketing-independence only, not against a reference",
                "for unaligned sequences only 'no mutation, same outcome (value or error class) for every bracketing' is asserted"]
@@ -137,6 +137,93 @@ def terminal_internals(t):
     return [(id(l.symbol), repr(l.symbol.value()._value), tuple(l.symbol.value()._trailing_bits)) for l in leaves(t)]
 
 
+def same_width_replacement(v, rng):
+    if isinstance(v, int):
+        return 1 - v
+    if isinstance(v, str):
+        n = len(v.encode("utf-8"))
+        cands = [x for x in TEXTS + ["b", "Z", "9", "qrs", "ö", "ab"] if len(x.encode("utf-8")) == n and x != v]
+    else:
+        cands = [x for x in BYTESV + [b"\x02", b"zz", b"\x10\x11"] if len(x) == len(v) and x != v]
+    return rng.choice(cands) if cands else None
+
+
+def view_reference(view):
+    from vf.ref import treeval
+
+    seq = treeval.leaf_seq(view)
+    if not treeval.aligned(seq):
+        return None
+    binary = treeval.is_binary(seq)
+    whole = len(treeval.to_bits(seq)) % 8 == 0
+    if binary and not whole:
+        return {"bits": ("ok", treeval.to_bits(seq))}
+    ref = {"bits": ("ok", treeval.to_bits(seq)), "str": ("ok", treeval.to_str(seq))}
+    if whole:
+        ref["bytes"] = ("ok", treeval.to_bytes(seq))
+    return ref
+
+
+def edit_history(tt, rng, stats):
+    from fandango.language.tree import DerivationTree
+    from fandango.language.symbols import Terminal
+    from vf.trees import pretty
+
+    out = []
+    inner = [n for n in tt.flatten() if not n.symbol.is_terminal and n._children]
+    if not inner:
+        return out
+    views = [("tree", tt)]
+    for n in rng.sample(inner, min(3, len(inner))):
+        views.append(("subtree", n))
+        k = len(n._children)
+        i = rng.randrange(k)
+        j = rng.randint(i + 1, k)
+        try:
+            views.append((f"slice[{i}:{j}]", n[i:j]))
+            views.append((f"index[{i}]", n[i]))
+        except Exception:
+            pass
+    for rounds in range(2):
+        # ask every view for its values (this is what may be memoised)
+        for name, v in views:
+            for k_ in rng.sample(["str", "bytes", "bits"], 3):
+                outcome(CONVS[k_], v)
+                stats["conversions"] += 1
+        # in-place edit of one leaf through the public mutators
+        leaves_ = [n for n in tt.flatten() if n.symbol.is_terminal and n._parent is not None]
+        if not leaves_:
+            return out
+        leaf = rng.choice(leaves_)
+        old = leaf.symbol.value()
+        raw = (old._trailing_bits[0] if old._value is None and len(old._trailing_bits) == 1 else old._value)
+        new = same_width_replacement(raw, rng) if raw is not None else None
+        if new is None:
+            return out
+        parent = leaf._parent
+        how = rng.choice(["symbol", "set_children", "set_children"])
+        if how == "symbol":
+            leaf.symbol = Terminal(new)
+        else:
+            parent.set_children([DerivationTree(Terminal(new)) if ch is leaf else ch for ch in parent._children])
+        stats["edit_histories"] += 1
+        for name, v in views:
+            ref = view_reference(v)
+            if ref is None:
+                continue
+            for k_, want in ref.items():
+                got = outcome(CONVS[k_], v)
+                stats["conversions"] += 1
+                stats["post_edit_values_checked"] += 1
+                if "slice" in name:
+                    stats["post_edit_slice_values_checked"] += 1
+                if got != want:
+                    out.append({"what": f"after replacing leaf {raw!r} by {new!r} (via {how}) {k_}() of the {name} view = {got!r}, but its current leaves concatenate to "
+                                        f"{want!r} (the value had been requested before the edit); tree now {pretty(tt)[:300]}", "mech": None})
+                    return out
+    return out
+
+
 def run_case(c):
     import copy
     from collections import Counter
@@ -207,6 +294,10 @@ def run_case(c):
                 diff = [k for k in order if got[k] != res[k]]
                 violations.append({"what": f"order {order} on one tree.value() object changes {diff}: {[got[k] for k in diff]!r} vs fresh {[res[k] for k in diff]!r}; tree {pretty(t)[:300]}", "mech": None})
                 break
+        # (iv) value -> in-place edit -> value histories, asked of the tree, of subtrees and of index/slice views of it:
+        # a later result is the concatenation of the leaves the view has THEN
+        if b < 4:
+            violations.extend(edit_history(copy.deepcopy(t), rng, stats))
         # conversions on the tree itself must not change it or its terminals' value objects
         for k in rng.sample(list(CONVS), 4):
             outcome(CONVS[k], t)
